@@ -109,7 +109,12 @@ where
     OpenClosed01: Distribution<F>,
 {
     fn sample<R: Rng + ?Sized>(&self, rng: &mut R) -> F {
-        let x: F = rng.sample(OpenClosed01);
+        // `OpenClosed01` can return exactly 1, where `-ln(x)` is zero and the transform
+        // below is infinite; the distribution has no mass there, so draw again.
+        let mut x: F = rng.sample(OpenClosed01);
+        while x == F::one() {
+            x = rng.sample(OpenClosed01);
+        }
         self.location + self.scale * (-x.ln()).powf(-self.shape.recip())
     }
 }
